@@ -23,7 +23,7 @@ def plan(tier, seed):
     n = 4000 if tier == "quick" else 80000
     specs = [{"seed": seed, "chunk": i, "n": 80} for i in range(n // 80)]
     # sources with one dimension past 2^8 (registers, definitions, parameters, labels, nesting, call depth, files, macro slots ...)
-    specs += [{"seed": seed, "chunk": 500000 + i, "n": 0, "scale": i} for i in range(16 if tier == "quick" else 64)]
+    specs += [{"seed": seed, "chunk": 500000 + i, "n": 0, "scale": i} for i in range(32 if tier == "quick" else 80)]
     return specs
 
 
@@ -47,7 +47,7 @@ def work(spec):
     r = common.rng(spec["seed"], "C03", spec["chunk"])
     srcs = []
     if "scale" in spec:
-        all_ = programs.scale_sources(r, small=spec["scale"] < 16)
+        all_ = programs.scale_sources(r, small=spec["scale"] < 16, large=16 <= spec["scale"] < 32)
         srcs.append(all_[spec["scale"] % len(all_)])
     for k in range(spec["n"]):
         m = k % 8
